@@ -72,8 +72,8 @@ Print Assumptions C09_persist_accepted.
     for every well-formed history *)
 Theorem C09_judge_predicate : forall (hash_hdr : header -> N) (root : list N -> N),
   (forall a b, hash_hdr a = hash_hdr b -> a = b) ->
-  forall full ops U, hist_wf hash_hdr root full ops cl_empty [] -> (persists ops <= u_kh U)%nat ->
-  prop_trace hash_hdr root U ops (trace_of cfg_fixed full U ops cl_empty) [] true 0 = V_ok.
+  forall strict full ops U, hist_wf hash_hdr root full ops cl_empty [] -> (persists ops <= u_kh U)%nat ->
+  prop_trace hash_hdr root strict U ops (trace_of cfg_fixed full U ops cl_empty) [] true 0 = V_ok.
 Proof. exact judge_predicate_all. Qed.
 Print Assumptions C09_judge_predicate.
 
@@ -114,7 +114,7 @@ Example C09_example_spec : spec_of true ex_ops = [ex_e1; ex_e2; ex_e3'] /\
 Proof. vm_compute. repeat split; reflexivity. Qed.
 
 Example C09_example_judge :
-  prop_trace toy_hash toy_root ex_U ex_ops (trace_of cfg_fixed true ex_U ex_ops cl_empty) [] true 0 = V_ok.
+  prop_trace toy_hash toy_root false ex_U ex_ops (trace_of cfg_fixed true ex_U ex_ops cl_empty) [] true 0 = V_ok.
 Proof. vm_compute. reflexivity. Qed.
 
 (** * Refutations on the faithful flags *)
@@ -124,7 +124,7 @@ Theorem C09_rb_heightkey_refuted :
   let cfg := {| d_rb_heightkey := true; d_bhash_codec := false |} in
   let ops := [OPersist ex_e1; OPersist ex_e2; OPersist ex_e3; ORollback 2] in
   get_block_hash cfg (run cfg false ops cl_empty) 3 = b_hash (e_blk ex_e3) /\
-  prop_trace toy_hash toy_root ex_U ops (trace_of cfg false ex_U ops cl_empty) [] true 0 = V_propfalse 3.
+  prop_trace toy_hash toy_root false ex_U ops (trace_of cfg false ex_U ops cl_empty) [] true 0 = V_propfalse 3.
 Proof. vm_compute. split; reflexivity. Qed.
 Print Assumptions C09_rb_heightkey_refuted.
 
@@ -133,7 +133,7 @@ Theorem C09_bhash_codec_refuted :
   let cfg := {| d_rb_heightkey := false; d_bhash_codec := true |} in
   let ops := [OPersist ex_e1] in
   get_block_hash cfg (run cfg false ops cl_empty) 1 <> b_hash (e_blk ex_e1) /\
-  prop_trace toy_hash toy_root ex_U ops (trace_of cfg false ex_U ops cl_empty) [] true 0 = V_propfalse 0.
+  prop_trace toy_hash toy_root false ex_U ops (trace_of cfg false ex_U ops cl_empty) [] true 0 = V_propfalse 0.
 Proof. vm_compute. split; [discriminate|reflexivity]. Qed.
 Print Assumptions C09_bhash_codec_refuted.
 
@@ -147,6 +147,6 @@ Theorem C09_dup_txhash_refuted :
   wf_entry toy_hash toy_root [ex_e1; ex_d2] ex_d3 /\
   get_tx_meta (run cfg_fixed false ops cl_empty) 13 = RNotFound /\
   tx_occurs (spec_of false ops) 13 = true /\
-  prop_trace toy_hash toy_root ex_U ops (trace_of cfg_fixed false ex_U ops cl_empty) [] true 0 = V_propfalse 3.
+  prop_trace toy_hash toy_root false ex_U ops (trace_of cfg_fixed false ex_U ops cl_empty) [] true 0 = V_propfalse 3.
 Proof. split; [apply wf_entry_b_spec; vm_compute; reflexivity|]. vm_compute. repeat split; reflexivity. Qed.
 Print Assumptions C09_dup_txhash_refuted.
